@@ -15,7 +15,8 @@ ASSUME = ["the input space is continuous: exhaustive over the configuration latt
 HORIZON = {"quick": 400, "thorough": 2400}
 
 STAGES = ["awgn", "laplacian", "phase", "fading-rayleigh", "fading-rician", "fading-lognormal", "nonlinear-direct", "nonlinear-cartesian", "nonlinear-polar", "nonlinear-noisy",
-          "nonlinear-direct-compress", "nonlinear-cartesian-compress", "nonlinear-polar-compress", "nonlinear-polar-saturate"]
+          "nonlinear-direct-compress", "nonlinear-cartesian-compress", "nonlinear-polar-compress", "nonlinear-polar-saturate",
+          "fading-rayleigh-T5", "fading-rician-T100", "fading-lognormal-T100"]     # coherence time not dividing / exceeding the word length
 CONSTRAINTS = ["total", "average", "papr-inside", "papr-outside", "papr-late", "per-antenna", "per-antenna-budget32", "per-antenna-budget64"]
 ARCHS = ["bourtsoulatze", "tung-q", "tung-q2", "kurka", "noma", "wz-small", "wz", "wz-conditional"]
 
@@ -134,7 +135,8 @@ def make_stage(st, par, value):
     if st.startswith("fading"):
         ft = st.split("-")[1]
         extra = {"k_factor": 2.0} if ft == "rician" else {"shadow_sigma_db": 4.0} if ft == "lognormal" else {}
-        return K.FlatFadingChannel(ft, 2, **extra, **kw)
+        T = int(st.split("-T")[1]) if "-T" in st else 2
+        return K.FlatFadingChannel(ft, T, **extra, **kw)
     if st == "nonlinear-noisy":
         return K.NonlinearChannel(cubic, add_noise=True, complex_mode="direct", **kw)
     if st.endswith("-compress"):
